@@ -814,6 +814,16 @@ pub fn check(cfg: &Cfg) -> Result<i32, Harness> {
             let mut rng = Rng::for_run(cfg.seed, ID, i);
             let case = gen_case(&mut rng);
             let (v, h) = eval(&case, wk)?;
+            record_digest(i, h.digest());
+            if std::env::var("VF_TRACE_DUMP").ok().and_then(|s| s.parse::<u64>().ok()) == Some(i) {
+                for o in &h.ops {
+                    eprintln!("DUMP {:?} {} ret={} inj={:?}", o.seq, o.sig(), o.ret, o.injected);
+                }
+                eprintln!("DUMP exit={:?} stdout={:?} stderr={:?}", h.exit, String::from_utf8_lossy(&h.stdout.0), String::from_utf8_lossy(&h.stderr.0));
+                for (p, f) in &h.files_after {
+                    eprintln!("DUMP file {p} {:?} {} {:o}", f.kind, f.bytes.0.len(), f.mode);
+                }
+            }
             let mut tally = Tally::default();
             tally.add(format!("runs:{}", case.scenario));
             for f in &h.fired {
